@@ -6,7 +6,9 @@ Readers under test (all on files / text written by the library itself):
   cmd_h5    biom.cli.table_subsetter._subset_table(path, None, axis, ids)
   json      parse_table(json_text, ids=, axis=)                          drops emptied other-axis vectors
   cmd_json  _subset_table(None, text, axis, ids) on four serialisations of the same document
+  h5handle  parse_table(open h5py.File, ids=, axis=)  (public path into the default variant)
   h5all     Table.from_hdf5(h)  (ties the model's reading of the stored arrays to the library)
+The HDF5 readers receive the request as list / tuple / set / dict keys view / generator / numpy array.
   cli_h5    the real command: biom.cli.cli.main(['subset-table', '-i', file, '-a', axis, '-s', ids_file, '-o', out])
   cli_json  the same with '-j' on each serialisation; the ids file is written in three styles
 """
@@ -35,7 +37,9 @@ RULE = ('tables from tables.rand_spec (1..5 x 1..5, layout recipes, all id alpha
         'JSON text as written, json.dumps default, indent=2 and separators=(",",":"); plus requests naming an unknown id '
         '(an unrelated string, a stored id of maximal length with extra characters appended, a proper prefix, another case, an id of the other axis), one '
         'whole read per file, and a stream of tables with 9..12 ids on one axis (kept indices >= 8, two-digit indices) with small subsets; '
-        'the REAL COMMAND (biom.cli.cli.main(["subset-table", ...]) in process, ids read from a file written as plain lines / with '
+        'parse_table on an open h5py.File as a further reader; the HDF5 readers get the request as list / tuple / set / dict keys '
+        'view / generator / numpy str or object array in rotation; 3 in 10 tables carry explicitly stored zeros (zeroed through '
+        'matrix_data before writing); the REAL COMMAND (biom.cli.cli.main(["subset-table", ...]) in process, ids read from a file written as plain lines / with '
         'extra tab-separated columns / with # comment lines) on 3-5 requests per axis and file, HDF5 and JSON input, plus a stream of '
         'tables whose ids contain blanks ("gut 2" next to "gut") with every subset through the command; '
         'JSON documents in which only some ids carry metadata (json readers only: the HDF5 writer refuses them); '
@@ -56,8 +60,9 @@ OTHER = {'observation': 'sample', 'sample': 'observation'}
 SERS = ['lib', 'dumps', 'indent', 'compact']
 GENS = ['g', 'a, b', 'say "hi", ok', 'x]y[z', '{k}: v', 'back\\slash', 'tab\there']
 HEADER_KEYS = ['id', 'format', 'format_url', 'type', 'generated_by', 'date', 'matrix_type', 'matrix_element_type']
-DROPS = ('h5', 'cmd_h5', 'cli_h5', 'json')          # variants that drop other-axis vectors emptied by the subset
-REFUSES = ('h5', 'h5nomd', 'cmd_h5', 'cmd_json', 'cli_h5', 'cli_json')
+DROPS = ('h5', 'h5handle', 'cmd_h5', 'cli_h5', 'json')          # variants that drop other-axis vectors emptied by the subset
+REFUSES = ('h5', 'h5handle', 'h5nomd', 'cmd_h5', 'cmd_json', 'cli_h5', 'cli_json')
+CTYPES = ['list', 'tuple', 'set', 'dictkeys', 'generator', 'array', 'objarray']
 SLICER = ('cmd_json', 'cli_json')        # observable = the text written
 IDS_STYLES = ['plain', 'cols', 'comments']
 UNKNOWN = 'no-such-id'
@@ -81,7 +86,18 @@ def art(c):
                 os.remove(a['path'])
             except OSError:
                 pass
-    t = T.build(c['spec'])
+    spec = c['spec']
+    zeroed = spec.get('zeroed') or []
+    if zeroed:
+        # entries that are stored but hold 0.0: built non-zero, then zeroed through matrix_data
+        pre = [list(row) for row in spec['mat']]
+        for r, k in zeroed:
+            pre[r][k] = 1.0
+        t = T.build(dict(spec, mat=pre))
+        for r, k in zeroed:
+            t.matrix_data[r, k] = 0.0
+    else:
+        t = T.build(spec)
     layout = T.layout_info(t)            # before the writers touch the representation
     gen = c.get('gen', 'g')
     path = os.path.join(_TMP, key[:24] + '.biom')
@@ -122,6 +138,23 @@ def art(c):
     a['json_all'] = T.snapshot(parse_table(js))
     _ART[key] = a
     return a
+
+
+def coll(ctype, ids):
+    """the request as the collection type the case names"""
+    if ctype == 'tuple':
+        return tuple(ids)
+    if ctype == 'set':
+        return set(ids)
+    if ctype == 'dictkeys':
+        return {i: 1 for i in ids}.keys()
+    if ctype == 'generator':
+        return (i for i in ids)
+    if ctype == 'array':
+        return np.array(list(ids)) if ids else np.array([], dtype='U1')
+    if ctype == 'objarray':
+        return np.array(list(ids), dtype=object)
+    return list(ids)
 
 
 # ---------------------------------------------------------------- the real command
@@ -199,21 +232,26 @@ def run_impl(c):
     except Exception as e:  # pragma: no cover - the library cannot write the table: not this property
         return ['crash', type(e).__name__, str(e)[:200]]
     k, axis, ids = c['kind'], c.get('axis'), list(c.get('ids', []))
+    ct = c.get('ctype', 'list')
     try:
         if k == 'h5all':
             return {'table': T.norm_snap(a['h5_all']), 'wf': True}
         if k in ('h5', 'h5nomd'):
             with h5py.File(a['path'], 'r') as f:
                 if k == 'h5':
-                    r = Table.from_hdf5(f, ids=ids, axis=axis)
+                    r = Table.from_hdf5(f, ids=coll(ct, ids), axis=axis)
                 else:
-                    r = Table.from_hdf5(f, ids=ids, axis=axis, subset_with_metadata=False)
+                    r = Table.from_hdf5(f, ids=coll(ct, ids), axis=axis, subset_with_metadata=False)
+                return ['ok', T.norm_snap(T.snapshot(r))]
+        if k == 'h5handle':
+            with h5py.File(a['path'], 'r') as f:
+                r = parse_table(f, ids=coll(ct, ids), axis=axis)
                 return ['ok', T.norm_snap(T.snapshot(r))]
         if k == 'cmd_h5':
-            r, fmt = _subset_table(a['path'], None, axis, ids)
+            r, fmt = _subset_table(a['path'], None, axis, coll(ct, ids))
             return ['ok', T.norm_snap(T.snapshot(r))]
         if k == 'json':
-            r = parse_table(a['text']['lib'], ids=ids, axis=axis)
+            r = parse_table(a['text']['lib'], ids=coll(ct, ids), axis=axis)
             return ['ok', T.norm_snap(T.snapshot(r))]
         if k == 'cmd_json':
             pieces, fmt = _subset_table(None, a['text'][c['ser']], axis, ids)
@@ -255,6 +293,8 @@ def encode(c):
         return [1, _file_tree(cd, a), AX[c['axis']], ids]
     if k == 'h5nomd':
         return [2, _file_tree(cd, a), AX[c['axis']], ids]
+    if k == 'h5handle':
+        return [7, _file_tree(cd, a), AX[c['axis']], ids]
     if k == 'json':
         return [3, cd.table(a['json_all']), AX[c['axis']], ids]
     if k == 'cli_h5':
@@ -404,7 +444,8 @@ def _subsets(rng, ids, tier):
     return out
 
 
-ALL_READERS = ('h5', 'h5nomd', 'cmd_h5', 'json', 'cmd_json')
+ALL_READERS = ('h5', 'h5handle', 'h5nomd', 'cmd_h5', 'json', 'cmd_json')
+H5_READERS = ('h5', 'h5handle', 'h5nomd', 'cmd_h5')
 
 
 def cases_for(rng, spec, gen_by, tier, readers=None):
@@ -416,9 +457,11 @@ def cases_for(rng, spec, gen_by, tier, readers=None):
         yield dict(base, kind='h5all')
     for axis in ('observation', 'sample'):
         ids = spec['oids'] if axis == 'observation' else spec['sids']
-        for sub in _subsets(rng, ids, tier):
-            for k in plain:
-                yield dict(base, kind=k, axis=axis, ids=list(sub))
+        for n_sub, sub in enumerate(_subsets(rng, ids, tier)):
+            for n_k, k in enumerate(plain):
+                # the request as list / tuple / set / dict view / generator / numpy array, in rotation
+                types = CTYPES if k in H5_READERS else ['list', 'tuple', 'set', 'array']
+                yield dict(base, kind=k, axis=axis, ids=list(sub), ctype=types[(n_sub + n_k + len(ids)) % len(types)])
             if slicer:
                 for ser in SERS:
                     yield dict(base, kind='cmd_json', axis=axis, ids=list(sub), ser=ser)
@@ -426,8 +469,9 @@ def cases_for(rng, spec, gen_by, tier, readers=None):
         some = list(ids[:rng.randint(0, len(ids))])
         bad = some + [UNKNOWN]
         rng.shuffle(bad)
-        for k in plain:
-            yield dict(base, kind=k, axis=axis, ids=list(bad))
+        for n_k, k in enumerate(plain):
+            yield dict(base, kind=k, axis=axis, ids=list(bad),
+                       ctype=CTYPES[(n_k + len(ids)) % len(CTYPES)] if k in H5_READERS else 'list')
         ser = rng.choice(SERS)
         if slicer:
             yield dict(base, kind='cmd_json', axis=axis, ids=list(bad), ser=ser)
@@ -552,7 +596,7 @@ def gen(rng, tier):
         yield c
     for c in blank_id_cases(rng, tier):
         yield c
-    n = 60 if tier == 'quick' else 600
+    n = 50 if tier == 'quick' else 500
     for i in range(n):
         big = rng.random() < 0.35
         spec = T.rand_spec(rng, max_r=5 if big else 4, max_c=5 if big else 4)
@@ -563,8 +607,12 @@ def gen(rng, tier):
             continue
         if rng.random() < 0.3:
             spec = spice(rng, spec)
+        if rng.random() < 0.3:
+            zeros = [[r, k] for r, row in enumerate(spec['mat']) for k, v in enumerate(row) if v == 0]
+            if zeros:
+                spec = dict(spec, zeroed=rng.sample(zeros, min(len(zeros), rng.randint(1, 3))))
         if risky_mdkey(spec):      # known finding F35: never produced by rand_spec, kept for safety
-            for c in cases_for(rng, spec, gen_by, tier, readers=('h5', 'h5nomd', 'cmd_h5', 'json')):
+            for c in cases_for(rng, spec, gen_by, tier, readers=('h5', 'h5handle', 'h5nomd', 'cmd_h5', 'json')):
                 yield c
             continue
         for c in cases_for(rng, spec, gen_by, tier):
@@ -644,6 +692,10 @@ def classify(c):
     tags.append('axis:' + c['axis'])
     if c['kind'] in SLICER:
         tags.append('ser:' + c['ser'])
+    if c.get('ctype'):
+        tags.append('request-as:' + c['ctype'])
+    if c['spec'].get('zeroed'):
+        tags.append('table-built-with-stored-zeros')
     if c['kind'].startswith('cli_'):
         tags.append('ids-file:' + c.get('idsfile', 'plain'))
         if any(' ' in i for i in c['ids']):
